@@ -197,6 +197,12 @@ def setDict (d : Dict) (p : Path) : Dict :=
     (Since a `fix:` commit in /repo; before it `None` reached `write_lines`, which raised AttributeError.) -/
 def codeLines (l : List (Option Str)) : List Str := l.map (fun o => o.getD [])
 
+/-- `main.add_splicer_code` on a string value (a YAML block scalar): its lines; a final newline does not add
+    a blank line.  (Since a `fix:` commit in /repo; before it the string was emitted one character per line.) -/
+def codeScalar (v : Str) : List Str :=
+  let parts := splitOn '\n' v
+  if v.getLast? = some '\n' then parts.dropLast else parts
+
 /-- One assignment of `main.add_splicer_code`. -/
 def mergeEntry (d : Dict) (e : Path × Val) : Dict :=
   match e.2 with
